@@ -123,6 +123,14 @@ _dispatch_verif_io_peek(dispatch_io_t channel, dispatch_queue_t *barrier_queue,
 	*group_state = channel->barrier_group ? &channel->barrier_group->dg_state : NULL;
 }
 
+// the close queue of the descriptor entry a dispatch I/O channel is attached to (NULL when it has none):
+// suspended once per holder of the entry, the cleanup handlers wait on it
+DV_EXPORT dispatch_queue_t
+_dispatch_verif_io_close_queue(dispatch_io_t channel)
+{
+	return channel->fd_entry ? channel->fd_entry->close_queue : NULL;
+}
+
 // addresses of the internal and external reference counts of an object
 DV_EXPORT void
 _dispatch_verif_object_ref_addrs(void *obj, volatile void **ref,
